@@ -369,7 +369,7 @@ theorem downsample_pps_case1 {ge : Bool} {s : Sample Rat} {theta : Rat} (hs : SI
       rw [hpart]
       unfold incl ind
       simp only [List.count_nil, Nat.cast_zero, zero_add, hni, Int.cast_zero, sub_zero, Option.some.injEq]
-      by_cases h : s.data.getD j 0 = x <;> simp [h]
+      by_cases h : s.data.getD j 0 = x <;> simp
     rw [hE]
     have hfr0 : theta * s.c - ((0 : Int) : Rat) = theta * s.c := by simp
     by_cases hn : s.data.length = 0
@@ -400,5 +400,293 @@ theorem downsample_pps_case1 {ge : Bool} {s : Sample Rat} {theta : Rat} (hs : SI
       by_cases hx : s.part = some x
       · simp only [hx, if_true]; field_simp; ring
       · simp only [hx, if_false]; field_simp; ring
+
+/-- Case "no item deleted" (`⌊theta·c⌋ = ⌊c⌋ ≥ 1`): threshold `t = (1 - theta·frac c)/(1 - frac(theta·c))`; below it
+nothing moves, above it a uniformly chosen full item is swapped with the partial item. -/
+theorem downsample_pps_case2 {ge : Bool} {s : Sample Rat} {theta : Rat} (hs : SInv P s) (hc : 0 < s.c) (ht0 : 0 < theta)
+    (ht1 : theta < 1) (hni0 : (theta * s.c).floor ≠ 0) (hni : (theta * s.c).floor = s.c.floor) :
+    let t := (1 - theta * (s.c - ((s.c.floor : Int) : Rat))) / (1 - (theta * s.c - (((theta * s.c).floor : Int) : Rat)))
+    let pr : Option Nat → Option Nat := fun q => if theta * s.c = (((theta * s.c).floor : Int) : Rat) then none else q
+    0 ≤ t ∧ t ≤ 1 ∧
+    (∀ u js, u < t → (downsample ge s theta ⟨[u], js⟩).1 = ⟨theta * s.c, s.data, pr s.part⟩) ∧
+    (∀ u js, t < u → (downsample ge s theta ⟨[u], js⟩).1 =
+        ⟨theta * s.c, (swapWithPartial s.data s.part (⟨[], js⟩ : Draws Rat)).1, pr (swapWithPartial s.data s.part (⟨[], js⟩ : Draws Rat)).2.1⟩) ∧
+    ∀ x, t * incl ⟨theta * s.c, s.data, pr s.part⟩ x +
+         (1 - t) * expIdx [s.data.length] (fun js => incl ⟨theta * s.c, (swapWithPartial s.data s.part (⟨[], js⟩ : Draws Rat)).1,
+              pr (swapWithPartial s.data s.part (⟨[], js⟩ : Draws Rat)).2.1⟩ x)
+        = theta * incl s x := by
+  intro t pr
+  obtain ⟨_, hl, hp, -, -⟩ := hs
+  have a1 := fl_le s.c
+  have a2 := lt_fl_add_one s.c
+  have n1 := fl_le (theta * s.c)
+  have n2 := lt_fl_add_one (theta * s.c)
+  have hnc : 0 < theta * s.c := mul_pos ht0 hc
+  have hlt : theta * s.c < s.c := by nlinarith
+  have hN : ((s.data.length : Nat) : Rat) = ((s.c.floor : Int) : Rat) := by exact_mod_cast hl
+  have hn0 : 0 ≤ (theta * s.c).floor := floor_nonneg' (le_of_lt hnc)
+  have hn' : 0 < s.data.length := by omega
+  have hNpos : (0 : Rat) < (s.data.length : Rat) := by exact_mod_cast hn'
+  -- the fraction was positive (otherwise an item would have been deleted): the partial item exists
+  have hfr : ((s.c.floor : Int) : Rat) < s.c := by rw [← hni]; linarith
+  obtain ⟨p, hsp⟩ : ∃ p, s.part = some p := Option.isSome_iff_exists.1 (hp.2 hfr)
+  have hden : 0 < 1 - (theta * s.c - (((theta * s.c).floor : Int) : Rat)) := by linarith
+  have hnum : 0 ≤ 1 - theta * (s.c - ((s.c.floor : Int) : Rat)) := by nlinarith
+  have hle : 1 - theta * (s.c - ((s.c.floor : Int) : Rat)) ≤ 1 - (theta * s.c - (((theta * s.c).floor : Int) : Rat)) := by
+    rw [hni]; nlinarith
+  have ht_0 : 0 ≤ t := div_nonneg hnum (le_of_lt hden)
+  have ht_1 : t ≤ 1 := (div_le_one hden).2 hle
+  have hunf : ∀ u js, (downsample ge s theta ⟨[u], js⟩).1 =
+      ⟨theta * s.c, (if t < u then swapWithPartial s.data s.part (⟨[], js⟩ : Draws Rat) else (s.data, s.part, (⟨[], js⟩ : Draws Rat))).1,
+        pr (if t < u then swapWithPartial s.data s.part (⟨[], js⟩ : Draws Rat) else (s.data, s.part, (⟨[], js⟩ : Draws Rat))).2.1⟩ := by
+    intro u js
+    rw [downsample_eq, downsampleCases_eq]
+    have hc1 : ((theta * s.c).floor = 0) = False := by simp [hni0]
+    have hc2 : ((theta * s.c).floor = s.c.floor) = True := by simp [hni]
+    simp only [rat_le, rat_one, rat_eq, rat_lt, rat_floor, rat_zero, decide_eq_true_eq, not_le.2 ht1, if_false, Int.cast_eq_zero, hc1,
+      Int.cast_inj, hc2, if_true, unit_single]
+    rfl
+  refine ⟨ht_0, ht_1, ?_, ?_, ?_⟩
+  · intro u js hu
+    rw [hunf, if_neg (not_lt.2 (le_of_lt hu))]
+  · intro u js hu
+    rw [hunf, if_pos hu]
+  · intro x
+    have hE : expIdx [s.data.length] (fun js => incl ⟨theta * s.c, (swapWithPartial s.data s.part (⟨[], js⟩ : Draws Rat)).1,
+              pr (swapWithPartial s.data s.part (⟨[], js⟩ : Draws Rat)).2.1⟩ x) =
+        avg s.data.length (fun j => inclF (s.data.set j p) (some (s.data.getD j 0)) (theta * s.c - (((theta * s.c).floor : Int) : Rat)) x) := by
+      simp only [expIdx]
+      apply avg_congr
+      intro j hj
+      rw [hsp, swapWith_some_cons, Nat.mod_eq_of_lt hj]
+      exact incl_pr _ _ _ _
+    rw [hE, avg_swap _ _ _ _ hn']
+    have hA : incl ⟨theta * s.c, s.data, pr s.part⟩ x = inclF s.data (some p) (theta * s.c - (((theta * s.c).floor : Int) : Rat)) x := by
+      rw [hsp]; exact incl_pr _ _ _ _
+    rw [hA, inclF_some, incl_eq_inclF, hsp, inclF_some]
+    -- pure algebra with N = ⌊c⌋ = ⌊theta·c⌋
+    show (1 - theta * (s.c - ((s.c.floor : Int) : Rat))) / (1 - (theta * s.c - (((theta * s.c).floor : Int) : Rat))) * _ +
+      (1 - (1 - theta * (s.c - ((s.c.floor : Int) : Rat))) / (1 - (theta * s.c - (((theta * s.c).floor : Int) : Rat)))) * _ = _
+    rw [hni, ← hN]
+    rw [hni, ← hN] at hden
+    set N := (s.data.length : Rat) with hNdef
+    have hdne : 1 - (theta * s.c - N) ≠ 0 := ne_of_gt hden
+    have hNne : N ≠ 0 := ne_of_gt hNpos
+    field_simp
+    ring
+
+/-! #### the two regions of the case "items are deleted" -/
+
+/-- `partial_item_.reset()` when the new `c` is integral -/
+def prc (c' : Rat) (q : Option Nat) : Option Nat := if c' = ((c'.floor : Int) : Rat) then none else q
+
+theorem incl_prc (c' : Rat) (d' : List Nat) (q x : Nat) :
+    incl ⟨c', d', prc c' (some q)⟩ x = inclF d' (some q) (c' - ((c'.floor : Int) : Rat)) x := incl_pr c' d' q x
+
+theorem subsample_ne (m : Nat) (l : List Nat) (d : Draws Rat) (h : m ≠ l.length) : subsample m l d = subsampleGo m l d := by
+  unfold subsample
+  have : (m == l.length) = false := by simpa using h
+  simp [this]
+
+theorem subsample_eq_len (l : List Nat) (d : Draws Rat) : subsample l.length l d = (l, d) := by
+  unfold subsample; simp
+
+/-- region A: subsample to `m` items (uniformly), then swap a uniformly chosen one of them with the partial item `p` -/
+theorem expA (data : List Nat) (p x : Nat) (c' : Rat) (m : Nat) (hm1 : 1 ≤ m) (hmn : m < data.length) :
+    expIdx (subB m data.length ++ [m]) (fun js => incl
+      ⟨c', (swapWithPartial (subsample m data (⟨[], js⟩ : Draws Rat)).1 (some p) (subsample m data (⟨[], js⟩ : Draws Rat)).2).1,
+        prc c' (swapWithPartial (subsample m data (⟨[], js⟩ : Draws Rat)).1 (some p) (subsample m data (⟨[], js⟩ : Draws Rat)).2).2.1⟩ x)
+      = (1 + (c' - ((c'.floor : Int) : Rat) - 1) / m) * ((m : Rat) * (data.count x : Rat) / data.length) + ind (p = x) := by
+  rw [expIdx_append]
+  have inner : ∀ js1, InB (subB m data.length) js1 →
+      expIdx [m] (fun js2 => incl
+        ⟨c', (swapWithPartial (subsample m data (⟨[], js1 ++ js2⟩ : Draws Rat)).1 (some p) (subsample m data (⟨[], js1 ++ js2⟩ : Draws Rat)).2).1,
+          prc c' (swapWithPartial (subsample m data (⟨[], js1 ++ js2⟩ : Draws Rat)).1 (some p) (subsample m data (⟨[], js1 ++ js2⟩ : Draws Rat)).2).2.1⟩ x)
+      = (1 + (c' - ((c'.floor : Int) : Rat) - 1) / m) * ((subAt m data js1).count x : Rat) + ind (p = x) := by
+    intro js1 hjs
+    have hlen := length_subAt m data js1 hjs
+    simp only [expIdx]
+    have e : ∀ j, j < m → incl
+        ⟨c', (swapWithPartial (subsample m data (⟨[], js1 ++ [j]⟩ : Draws Rat)).1 (some p) (subsample m data (⟨[], js1 ++ [j]⟩ : Draws Rat)).2).1,
+          prc c' (swapWithPartial (subsample m data (⟨[], js1 ++ [j]⟩ : Draws Rat)).1 (some p) (subsample m data (⟨[], js1 ++ [j]⟩ : Draws Rat)).2).2.1⟩ x
+        = inclF ((subAt m data js1).set j p) (some ((subAt m data js1).getD j 0)) (c' - ((c'.floor : Int) : Rat)) x := by
+      intro j hj
+      rw [subsample_ne m data _ (by omega), subsampleGo_append m data [] js1 [j] hjs]
+      simp only
+      rw [swapWith_some_cons, hlen, Nat.mod_eq_of_lt hj]
+      exact incl_prc _ _ _ _
+    rw [avg_congr e]
+    have := avg_swap (subAt m data js1) p x (c' - ((c'.floor : Int) : Rat)) (by rw [hlen]; omega)
+    rw [hlen] at this
+    rw [this]; ring
+  rw [expIdx_congr _ inner, expIdx_affine _ (subB_pos m data.length (by omega)), exp_count_subAt m data x (by omega)]
+
+/-- region B: subsample to `m` items (uniformly; nothing to do when `m = n`), then move a uniformly chosen one of them to the
+partial slot -/
+theorem expB (data : List Nat) (x : Nat) (c' : Rat) (m : Nat) (hm1 : 1 ≤ m) (hmn : m ≤ data.length) :
+    expIdx ((if m = data.length then [] else subB m data.length) ++ [m]) (fun js => incl
+      ⟨c', (moveOneToPartial (subsample m data (⟨[], js⟩ : Draws Rat)).1 (subsample m data (⟨[], js⟩ : Draws Rat)).2).1,
+        prc c' (moveOneToPartial (subsample m data (⟨[], js⟩ : Draws Rat)).1 (subsample m data (⟨[], js⟩ : Draws Rat)).2).2.1⟩ x)
+      = (1 + (c' - ((c'.floor : Int) : Rat) - 1) / m) * ((m : Rat) * (data.count x : Rat) / data.length) := by
+  have hmq : (m : Rat) ≠ 0 := by
+    have : (1 : Rat) ≤ m := by exact_mod_cast hm1
+    linarith
+  by_cases hmeq : m = data.length
+  · -- nothing is deleted first
+    subst hmeq
+    simp only [if_true, List.nil_append, expIdx]
+    have e : ∀ j, j < data.length → incl
+        ⟨c', (moveOneToPartial (subsample data.length data (⟨[], [j]⟩ : Draws Rat)).1 (subsample data.length data (⟨[], [j]⟩ : Draws Rat)).2).1,
+          prc c' (moveOneToPartial (subsample data.length data (⟨[], [j]⟩ : Draws Rat)).1 (subsample data.length data (⟨[], [j]⟩ : Draws Rat)).2).2.1⟩ x
+        = inclF ((data.set j (data.getD (data.length - 1) 0)).dropLast) (some (data.getD j 0)) (c' - ((c'.floor : Int) : Rat)) x := by
+      intro j hj
+      rw [subsample_eq_len]
+      simp only
+      rw [moveOne_cons, Nat.mod_eq_of_lt hj]
+      exact incl_prc _ _ _ _
+    rw [avg_congr e, avg_move data x _ (by omega)]
+    field_simp
+  · rw [if_neg hmeq, expIdx_append]
+    have inner : ∀ js1, InB (subB m data.length) js1 →
+        expIdx [m] (fun js2 => incl
+          ⟨c', (moveOneToPartial (subsample m data (⟨[], js1 ++ js2⟩ : Draws Rat)).1 (subsample m data (⟨[], js1 ++ js2⟩ : Draws Rat)).2).1,
+            prc c' (moveOneToPartial (subsample m data (⟨[], js1 ++ js2⟩ : Draws Rat)).1 (subsample m data (⟨[], js1 ++ js2⟩ : Draws Rat)).2).2.1⟩ x)
+        = (1 + (c' - ((c'.floor : Int) : Rat) - 1) / m) * ((subAt m data js1).count x : Rat) + 0 := by
+      intro js1 hjs
+      have hlen := length_subAt m data js1 hjs
+      simp only [expIdx]
+      have e : ∀ j, j < m → incl
+          ⟨c', (moveOneToPartial (subsample m data (⟨[], js1 ++ [j]⟩ : Draws Rat)).1 (subsample m data (⟨[], js1 ++ [j]⟩ : Draws Rat)).2).1,
+            prc c' (moveOneToPartial (subsample m data (⟨[], js1 ++ [j]⟩ : Draws Rat)).1 (subsample m data (⟨[], js1 ++ [j]⟩ : Draws Rat)).2).2.1⟩ x
+          = inclF (((subAt m data js1).set j ((subAt m data js1).getD ((subAt m data js1).length - 1) 0)).dropLast)
+              (some ((subAt m data js1).getD j 0)) (c' - ((c'.floor : Int) : Rat)) x := by
+        intro j hj
+        rw [subsample_ne m data _ hmeq, subsampleGo_append m data [] js1 [j] hjs]
+        simp only
+        rw [moveOne_cons, hlen, Nat.mod_eq_of_lt hj]
+        exact incl_prc _ _ _ _
+      rw [avg_congr e]
+      have := avg_move (subAt m data js1) x (c' - ((c'.floor : Int) : Rat)) (by rw [hlen]; omega)
+      simp only [hlen] at this ⊢
+      rw [this]; ring
+    rw [expIdx_congr _ inner, expIdx_affine _ (subB_pos m data.length hmn), exp_count_subAt m data x hmn]
+    ring
+
+/-- Case "items are deleted" (`1 ≤ ⌊theta·c⌋ < ⌊c⌋`): threshold `t = theta·frac c`; below it the sample is cut to
+`⌊theta·c⌋` uniformly chosen items one of which is then swapped with the partial item, above it to `⌊theta·c⌋ + 1` items one
+of which becomes the partial item. -/
+theorem downsample_pps_case3 {ge : Bool} {s : Sample Rat} {theta : Rat} (hs : SInv P s) (hc : 0 < s.c) (ht0 : 0 < theta)
+    (ht1 : theta < 1) (hni0 : (theta * s.c).floor ≠ 0) (hni : (theta * s.c).floor ≠ s.c.floor) :
+    let t := theta * (s.c - ((s.c.floor : Int) : Rat))
+    let m := (theta * s.c).floor.toNat
+    let FA : List Nat → Sample Rat := fun js =>
+      ⟨theta * s.c, (swapWithPartial (subsample m s.data (⟨[], js⟩ : Draws Rat)).1 s.part (subsample m s.data (⟨[], js⟩ : Draws Rat)).2).1,
+        prc (theta * s.c) (swapWithPartial (subsample m s.data (⟨[], js⟩ : Draws Rat)).1 s.part (subsample m s.data (⟨[], js⟩ : Draws Rat)).2).2.1⟩
+    let FB : List Nat → Sample Rat := fun js =>
+      ⟨theta * s.c, (moveOneToPartial (subsample (m + 1) s.data (⟨[], js⟩ : Draws Rat)).1 (subsample (m + 1) s.data (⟨[], js⟩ : Draws Rat)).2).1,
+        prc (theta * s.c) (moveOneToPartial (subsample (m + 1) s.data (⟨[], js⟩ : Draws Rat)).1 (subsample (m + 1) s.data (⟨[], js⟩ : Draws Rat)).2).2.1⟩
+    0 ≤ t ∧ t ≤ 1 ∧
+    (∀ u js, u < t → (downsample ge s theta ⟨[u], js⟩).1 = FA js) ∧
+    (∀ u js, t < u → (downsample ge s theta ⟨[u], js⟩).1 = FB js) ∧
+    ∀ x, t * expIdx (subB m s.data.length ++ [m]) (fun js => incl (FA js) x) +
+         (1 - t) * expIdx ((if m + 1 = s.data.length then [] else subB (m + 1) s.data.length) ++ [m + 1]) (fun js => incl (FB js) x)
+        = theta * incl s x := by
+  intro t m FA FB
+  obtain ⟨_, hl, hp, -, -⟩ := hs
+  have a1 := fl_le s.c
+  have a2 := lt_fl_add_one s.c
+  have n1 := fl_le (theta * s.c)
+  have n2 := lt_fl_add_one (theta * s.c)
+  have hnc : 0 < theta * s.c := mul_pos ht0 hc
+  have hlt : theta * s.c < s.c := by nlinarith
+  have hN : ((s.data.length : Nat) : Rat) = ((s.c.floor : Int) : Rat) := by exact_mod_cast hl
+  have hn0 : 0 ≤ (theta * s.c).floor := floor_nonneg' (le_of_lt hnc)
+  have hna : (theta * s.c).floor ≤ s.c.floor := floor_mono' (le_of_lt hlt)
+  have hm1 : 1 ≤ m := by show 1 ≤ (theta * s.c).floor.toNat; omega
+  have hmn : m < s.data.length := by show (theta * s.c).floor.toNat < s.data.length; omega
+  have hmq : ((m : Nat) : Rat) = (((theta * s.c).floor : Int) : Rat) := by
+    show (((theta * s.c).floor.toNat : Nat) : Rat) = _
+    have : (((theta * s.c).floor.toNat : Nat) : Int) = (theta * s.c).floor := Int.toNat_of_nonneg hn0
+    exact_mod_cast this
+  have hcf0 : 0 ≤ s.c - ((s.c.floor : Int) : Rat) := by linarith
+  have ht_0 : 0 ≤ t := mul_nonneg (le_of_lt ht0) hcf0
+  have ht_1 : t ≤ 1 := by show theta * (s.c - ((s.c.floor : Int) : Rat)) ≤ 1; nlinarith
+  have hunf : ∀ u js, (downsample ge s theta ⟨[u], js⟩).1 = if u < t then FA js else FB js := by
+    intro u js
+    rw [downsample_eq, downsampleCases_eq]
+    have hc1 : ((theta * s.c).floor = 0) = False := by simp [hni0]
+    have hc2 : ((theta * s.c).floor = s.c.floor) = False := by simp [hni]
+    simp only [rat_le, rat_one, rat_eq, rat_lt, rat_floor, rat_zero, rat_toNat, floor_intCast', decide_eq_true_eq, not_le.2 ht1,
+      if_false, Int.cast_eq_zero, hc1, Int.cast_inj, hc2, unit_single]
+    split <;> rfl
+  refine ⟨ht_0, ht_1, ?_, ?_, ?_⟩
+  · intro u js hu; rw [hunf, if_pos hu]
+  · intro u js hu; rw [hunf, if_neg (not_lt.2 (le_of_lt hu))]
+  · intro x
+    have hB := expB s.data x (theta * s.c) (m + 1) (by omega) (by omega)
+    have hmq1 : ((m + 1 : Nat) : Rat) = (((theta * s.c).floor : Int) : Rat) + 1 := by push_cast; rw [hmq]
+    have hNpos : (0 : Rat) < (s.data.length : Rat) := by exact_mod_cast (by omega : 0 < s.data.length)
+    have hNIpos : (0 : Rat) < (((theta * s.c).floor : Int) : Rat) := by
+      have : (1 : Int) ≤ (theta * s.c).floor := by omega
+      have : (1 : Rat) ≤ (((theta * s.c).floor : Int) : Rat) := by exact_mod_cast this
+      linarith
+    show t * expIdx (subB m s.data.length ++ [m]) (fun js => incl (FA js) x) + (1 - t) * expIdx _ (fun js => incl (FB js) x) = _
+    rw [show (fun js => incl (FB js) x) = _ from rfl, hB, hmq1]
+    by_cases hcf : s.c - ((s.c.floor : Int) : Rat) = 0
+    · -- integral c: region A is empty (t = 0), and there is no partial item
+      have ht : t = 0 := by show theta * (s.c - ((s.c.floor : Int) : Rat)) = 0; rw [hcf, mul_zero]
+      have hsn : s.part = none := by
+        cases hh : s.part with
+        | none => rfl
+        | some p => have := hp.1 (by rw [hh]; rfl); linarith
+      rw [ht, zero_mul, zero_add, sub_zero, one_mul, incl_eq_inclF, hsn]
+      unfold inclF
+      simp only [reduceCtorEq, if_false, add_zero]
+      have hcN : s.c = (s.data.length : Rat) := by rw [hN]; linarith
+      set NI := (((theta * s.c).floor : Int) : Rat) with hNI
+      rw [hcN]
+      have h1 : NI + 1 ≠ 0 := by linarith
+      have h2 : (s.data.length : Rat) ≠ 0 := ne_of_gt hNpos
+      field_simp
+      ring
+    · have hfr : ((s.c.floor : Int) : Rat) < s.c := by
+        rcases lt_or_eq_of_le hcf0 with h | h
+        · linarith
+        · exact absurd h.symm hcf
+      obtain ⟨p, hsp⟩ : ∃ p, s.part = some p := Option.isSome_iff_exists.1 (hp.2 hfr)
+      have hA := expA s.data p x (theta * s.c) m hm1 hmn
+      have hFA : (fun js => incl (FA js) x) = (fun js => incl
+          ⟨theta * s.c, (swapWithPartial (subsample m s.data (⟨[], js⟩ : Draws Rat)).1 (some p) (subsample m s.data (⟨[], js⟩ : Draws Rat)).2).1,
+            prc (theta * s.c) (swapWithPartial (subsample m s.data (⟨[], js⟩ : Draws Rat)).1 (some p) (subsample m s.data (⟨[], js⟩ : Draws Rat)).2).2.1⟩ x) := by
+        funext js; show incl ⟨_, _, _⟩ x = _; rw [hsp]
+      rw [hFA, hA, hmq, incl_eq_inclF, hsp, inclF_some]
+      show theta * (s.c - ((s.c.floor : Int) : Rat)) * _ + (1 - theta * (s.c - ((s.c.floor : Int) : Rat))) * _ = _
+      rw [← hN]
+      set NI := (((theta * s.c).floor : Int) : Rat) with hNI
+      set N := (s.data.length : Rat) with hNdef
+      have h1 : NI + 1 ≠ 0 := by linarith
+      have h2 : N ≠ 0 := ne_of_gt hNpos
+      have h3 : NI ≠ 0 := ne_of_gt hNIpos
+      field_simp
+      ring
+
+/-- `downsample(theta)`, `0 < theta < 1`: there is a threshold `t ∈ [0,1]` for the unit draw; draws below `t` lead to the
+outcome `FA js`, draws above to `FB js`, where `js` are the index draws (`random_idx`), independent and uniform with the
+bounds `bA` resp. `bB`; and for EVERY item `x` the expected inclusion probability afterwards,
+`t·E[incl (FA js) x] + (1-t)·E[incl (FB js) x]`, is `theta · incl s x`. -/
+theorem downsample_pps {ge : Bool} {s : Sample Rat} {theta : Rat} (hs : SInv P s) (hc : 0 < s.c) (ht0 : 0 < theta)
+    (ht1 : theta < 1) :
+    ∃ (t : Rat) (bA bB : List Nat) (FA FB : List Nat → Sample Rat), 0 ≤ t ∧ t ≤ 1 ∧
+      (∀ u js, u < t → (downsample ge s theta ⟨[u], js⟩).1 = FA js) ∧
+      (∀ u js, t < u → (downsample ge s theta ⟨[u], js⟩).1 = FB js) ∧
+      ∀ x, t * expIdx bA (fun js => incl (FA js) x) + (1 - t) * expIdx bB (fun js => incl (FB js) x) = theta * incl s x := by
+  by_cases h0 : (theta * s.c).floor = 0
+  · obtain ⟨a, b, c, d, e⟩ := downsample_pps_case1 (ge := ge) hs hc ht0 ht1 h0
+    exact ⟨_, [], [s.data.length], fun _ => _, _, a, b, c, d, e⟩
+  · by_cases h1 : (theta * s.c).floor = s.c.floor
+    · obtain ⟨a, b, c, d, e⟩ := downsample_pps_case2 (ge := ge) hs hc ht0 ht1 h0 h1
+      exact ⟨_, [], [s.data.length], fun _ => _, _, a, b, c, d, e⟩
+    · obtain ⟨a, b, c, d, e⟩ := downsample_pps_case3 (ge := ge) hs hc ht0 ht1 h0 h1
+      exact ⟨_, _, _, _, _, a, b, c, d, e⟩
 
 end DS.Ebpps
